@@ -194,8 +194,9 @@ static unsigned long walk_nodes, walk_bytes;
 static int file_all_apis(ctx_t *c, const sqfs_inode_generic_t *ino, int *agree)
 {
 	uint64_t hs = 0, hr = H0, hb = H0;
-	sqfs_u64 total = 0, size = 0, off = 0;
+	sqfs_u64 total = 0, size = 0, off = 0, btotal = 0;
 	size_t i, nblk, sz;
+	int bfail = 0;
 	sqfs_u8 *buf, *blk;
 	int ret, rs;
 
@@ -218,16 +219,23 @@ static int file_all_apis(ctx_t *c, const sqfs_inode_generic_t *ino, int *agree)
 	/* block by block + fragment */
 	nblk = sqfs_inode_get_file_block_count(ino);
 	for (i = 0; i < nblk && i < 20000; ++i) {
-		if (sqfs_data_reader_get_block(c->data, ino, i, &sz, &blk) != 0) break;
+		if (sqfs_data_reader_get_block(c->data, ino, i, &sz, &blk) != 0) { bfail = 1; break; }
 		hb = H(hb, blk, sz);
+		btotal += sz;
 		free(blk);
 	}
+	if (nblk > 20000)
+		bfail = 1;
 	if (sqfs_data_reader_get_fragment(c->data, ino, &sz, &blk) == 0 && blk != NULL) {
 		hb = H(hb, blk, sz);
+		btotal += sz;
 		free(blk);
 	}
 	walk_bytes += total;
 	if (rs == 0 && ret == 0 && total == off && hs != hr)
+		*agree = 0;
+	/* the per-block API returns the same bytes (holes included) as the positional read */
+	if (ret == 0 && !bfail && btotal == off && hb != hr)
 		*agree = 0;
 	return rs ? rs : ret;
 }
@@ -251,7 +259,7 @@ static void walk_tree(ctx_t *c, const sqfs_tree_node_t *n, int depth)
 	if (is_file(n->inode)) {
 		file_all_apis(c, n->inode, &agree);
 		if (!agree)
-			printf("DISAGREE inode=%u stream and positional read differ\n", n->inode->base.inode_number);
+			printf("DISAGREE inode=%u stream, positional read and per-block read differ\n", n->inode->base.inode_number);
 	}
 	for (it = n->children; it != NULL; it = it->next)
 		if (depth < 4000)
